@@ -356,7 +356,7 @@ def finalize(agg, tier):
 
 
 LEVEL_TEXT = (
-    "Fault enumeration: the finite matrix (entry point x invalid-specification class, 58 cells) is enumerated completely; "
+    "Fault enumeration: the finite matrix (entry point x invalid-specification class, 59 cells incl. the csv-table and membrane-folder routes) is enumerated completely; "
     "every cell is executed with K random otherwise-valid argument sets and must raise each time, while its control (the "
     "same arguments with the contradiction removed) must return at least once. Held means every invalid call of this run "
     "was rejected."
